@@ -257,7 +257,7 @@ func TestVerifReplay(t *testing.T) {
 	rpFile := filepath.Join(dir, "replay.json")
 	os.WriteFile(rpFile, data, 0644)
 	rr.File = rpFile
-	cmd := exec.Command("go", "test", "-vet=off", "-count=1", "-run", "^TestVerifReplay$", "-overlay", ovFile, "./"+h.Pkg)
+	cmd := exec.Command("go", "test", "-v", "-vet=off", "-count=1", "-run", "^TestVerifReplay$", "-overlay", ovFile, "./"+h.Pkg)
 	cmd.Dir = RepoDir
 	cmd.Env = append(goEnv(), "VRT_REPLAY="+rpFile)
 	out, _ := runTimeout(cmd, 5*time.Minute)
@@ -538,3 +538,5 @@ func (c *Ctx) HandleRepoCex(o *Outcome, r *Result, keyOf func(symgo.Cex) string)
 		c.Logf("  violated: %s %s — %s; native verdict: %s", r.H.Name, cex.ID, cex.Msg, rr.Verdict)
 	}
 }
+
+func jsonIndent(v any) ([]byte, error) { return json.MarshalIndent(v, "", " ") }
